@@ -1,4 +1,6 @@
-//! Property oracles evaluated on the live state after a successful step.
+//! Property oracles evaluated on the live state after a successful step.  The book and the
+//! configuration are what the hand-written reader of `format.rs` sees in the raw storage
+//! (golden shapes, classification by shape); no persisted type of the contract is involved.
 //!
 //!  solvency              C01  contract holdings == sum of escrow owed to open orders
 //!  approver_tracks_size  C08  Ready.converted_base mirrors the ask size / contract base denom
@@ -12,16 +14,14 @@ use crate::run::{
     clone_storage, ledger_get, parse_msg, AskEntry, BidEntry, Book, CallResult, Msg, Request, Snap,
     World,
 };
-use ats_smart_contract::ask_order::{AskOrderClass, AskOrderStatus, AskOrderV1};
-use ats_smart_contract::bid_order::BidOrderV3;
-use ats_smart_contract::contract_info::ContractInfoV3;
+use crate::format::{AskClass, AskRec, BidRec, CoinRec, ConfigRec};
 use ats_smart_contract::msg::ExecuteMsg;
 use rust_decimal::prelude::FromPrimitive;
 use rust_decimal::Decimal;
 use std::collections::{BTreeMap, BTreeSet};
 use std::str::FromStr;
 
-pub const ORACLES: [&str; 15] = [
+pub const ORACLES: [&str; 16] = [
     "solvency",
     "approver_tracks_size",
     "mechanism",
@@ -37,6 +37,7 @@ pub const ORACLES: [&str; 15] = [
     "queries",
     "attributes",
     "instantiate_coherence",
+    "storage_format",
 ];
 
 #[derive(Clone, Debug)]
@@ -147,39 +148,29 @@ fn to_i(x: u128) -> i128 {
     i128::try_from(x).unwrap_or(i128::MAX)
 }
 
-fn ready(ask: &AskOrderV1) -> Option<(&cosmwasm_std::Addr, &cosmwasm_std::Coin)> {
-    match &ask.class {
-        AskOrderClass::Convertible {
-            status:
-                AskOrderStatus::Ready {
-                    approver,
-                    converted_base,
-                },
-        } => Some((approver, converted_base)),
-        _ => None,
-    }
+fn ready(ask: &AskRec) -> Option<(&str, &CoinRec)> {
+    ask.ready()
 }
 
 /// remaining quote + remaining fee, as signed numbers (negative if accumulators overshoot)
-fn bid_owed(b: &BidOrderV3) -> i128 {
-    let q = to_i(b.quote.amount.u128()) - to_i(b.accumulated_quote.u128());
+fn bid_owed(b: &BidRec) -> i128 {
+    let q = to_i(b.quote.amount) - to_i(b.accumulated_quote);
     let f = match &b.fee {
-        Some(f) => to_i(f.amount.u128()) - to_i(b.accumulated_fee.u128()),
+        Some(f) => to_i(f.amount) - to_i(b.accumulated_fee),
         None => 0,
     };
     q.saturating_add(f)
 }
 
-#[allow(deprecated)]
 fn solvency(world: &World, book: &Book) -> OracleResult {
     let mut owed: BTreeMap<String, i128> = BTreeMap::new();
     let mut notes = vec![];
     for a in &book.asks {
         match a {
             AskEntry::V1(ask) => {
-                *owed.entry(ask.base.clone()).or_insert(0) += to_i(ask.size.u128());
+                *owed.entry(ask.base.clone()).or_insert(0) += to_i(ask.size);
                 if let Some((_, cb)) = ready(ask) {
-                    *owed.entry(cb.denom.clone()).or_insert(0) += to_i(cb.amount.u128());
+                    *owed.entry(cb.denom.clone()).or_insert(0) += to_i(cb.amount);
                 }
             }
             AskEntry::Raw { key, .. } => notes.push(format!("unparseable ask {key} ignored")),
@@ -191,7 +182,7 @@ fn solvency(world: &World, book: &Book) -> OracleResult {
                 *owed.entry(bid.quote.denom.clone()).or_insert(0) += bid_owed(bid);
             }
             BidEntry::V2 { order, .. } => {
-                let v3 = crate::run::legacy_as_current(order);
+                let v3 = order.as_current_saturating();
                 *owed.entry(v3.quote.denom.clone()).or_insert(0) += bid_owed(&v3);
             }
             BidEntry::Unknown { key, .. } => notes.push(format!("unparseable bid {key} ignored")),
@@ -219,7 +210,7 @@ fn solvency(world: &World, book: &Book) -> OracleResult {
     r
 }
 
-fn approver_tracks_size(book: &Book, ci: Option<&ContractInfoV3>) -> OracleResult {
+fn approver_tracks_size(book: &Book, ci: Option<&ConfigRec>) -> OracleResult {
     let mut failures = vec![];
     let mut n = 0;
     for ask in book.v1_asks() {
@@ -345,8 +336,8 @@ fn bid_consistency(book: &Book) -> OracleResult {
                 ));
             }
         }
-        let rem_base = to_i(bid.base.amount.u128()) - to_i(bid.accumulated_base.u128());
-        let rem_quote = to_i(bid.quote.amount.u128()) - to_i(bid.accumulated_quote.u128());
+        let rem_base = to_i(bid.base.amount) - to_i(bid.accumulated_base);
+        let rem_quote = to_i(bid.quote.amount) - to_i(bid.accumulated_quote);
         match Decimal::from_str(&bid.price) {
             Ok(price) => {
                 let lhs = Decimal::from_i128(rem_base).and_then(|b| price.checked_mul(b));
@@ -366,18 +357,18 @@ fn bid_consistency(book: &Book) -> OracleResult {
     OracleResult::from_failures(failures, format!("{n} V3 bid(s) checked"))
 }
 
-fn ask_consistency(book: &Book, ci: Option<&ContractInfoV3>) -> OracleResult {
+fn ask_consistency(book: &Book, ci: Option<&ConfigRec>) -> OracleResult {
     let mut failures = vec![];
     let mut n = 0;
     for ask in book.v1_asks() {
         n += 1;
         let id = &ask.id;
-        if ask.size.is_zero() {
+        if ask.size == 0 {
             failures.push(format!("ask {id}: size is 0"));
         }
         match ci {
             Some(ci) => {
-                let basic = matches!(ask.class, AskOrderClass::Basic);
+                let basic = matches!(ask.class, AskClass::Basic);
                 if basic != (ask.base == ci.base_denom) {
                     failures.push(format!(
                         "ask {id}: class basic={basic} but base {} vs contract base_denom {}",
@@ -460,7 +451,7 @@ fn try_exit(
     }
 }
 
-fn exit_liveness(world: &World, book: &Book, ci: Option<&ContractInfoV3>) -> OracleResult {
+fn exit_liveness(world: &World, book: &Book, ci: Option<&ConfigRec>) -> OracleResult {
     let mut failures = vec![];
     let executor: Option<String> = ci.and_then(|c| c.executors.first().map(|a| a.to_string()));
     let mut n = 0;
@@ -474,9 +465,9 @@ fn exit_liveness(world: &World, book: &Book, ci: Option<&ContractInfoV3>) -> Ora
         };
         n += 1;
         let mut expected = Payouts::new();
-        add_payout(&mut expected, ask.owner.as_str(), &ask.base, ask.size.u128());
+        add_payout(&mut expected, ask.owner.as_str(), &ask.base, ask.size);
         if let Some((approver, cb)) = ready(ask) {
-            add_payout(&mut expected, approver.as_str(), &cb.denom, cb.amount.u128());
+            add_payout(&mut expected, approver, &cb.denom, cb.amount);
         }
         if let Some(f) = try_exit(
             world,
